@@ -255,3 +255,54 @@ def mutate(bi: int, ln: int, m: int, dele: bool) -> bool:
         ok = _guard(run)
     tock("mutate")
     return ok
+
+
+# ------------------------------------------------------------------ texts whose expansion multiplies
+KS = list(range(1, 41)) if THOROUGH else [1, 2, 3, 5, 8, 12, 16, 20, 24, 28, 32, 36, 40]
+
+
+def growth(kind: int, ki: int, w: int) -> bool:
+    """documents of k+3 lines whose preprocessing multiplies text or work: (0) a chain of k object-like macros each using
+    the next one w times, (1) the same with function-like macros, (2) a file that #includes itself w times (k extra
+    lines of code), (3) two headers that include each other w times, (4) k nested `include 'self'` lines (Fortran
+    INCLUDE).  Indexing must finish within 60 s (measured under the tracer's overhead; plain: < 1 s) whatever k and w:
+    a 45-line text must not take 2**40 steps.  k = KS[ki].
+    pre: 0 <= kind <= 4 and 0 <= ki < len(KS) and 1 <= w <= 3 and (kind * 3 + w) % NPART == PART
+    post: _
+    """
+    tick("growth")
+    kind, ki, w = conc(kind, 0, 4), conc(ki, 0, len(KS) - 1), conc(w, 1, 3)
+    k = KS[ki]
+
+    def run():
+        root = ws.ROOT
+        if kind == 0:
+            files = {f"{root}/g.F90": "".join(f"#define A{i} " + " ".join([f"A{i + 1}"] * w) + "\n" for i in range(k))
+                     + "program p\n  x = A0\nend program p\n"}
+        elif kind == 1:
+            files = {f"{root}/g.F90": "".join(f"#define A{i}(x) " + " + ".join([f"A{i + 1}(x)"] * w) + "\n" for i in range(k))
+                     + "program p\n  y = A0(1)\nend program p\n"}
+        elif kind == 2:
+            files = {f"{root}/g.F90": '#include "g.F90"\n' * w + "program p\n" + "  x = 1\n" * k + "end program p\n"}
+        elif kind == 3:
+            files = {f"{root}/g.F90": '#include "a.h"\nprogram p\nend program p\n',
+                     f"{root}/a.h": '#include "b.h"\n' * w + "#define IN_A 1\n" * k,
+                     f"{root}/b.h": '#include "a.h"\n' * w + "#define IN_B 1\n"}
+        else:
+            files = {f"{root}/g.f90": "program p\n" + "  include 'g.f90'\n" * min(w, 2) + "  x = 1\n" * k + "end program p\n"}
+        srv = ws.reset(SRV, files)
+        main = next(iter(files))
+        if main not in srv.workspace or srv.workspace[main].ast is None:
+            _FAIL.append((kind, k, w, "not indexed"))
+            return False
+        r = ws.request(srv, "textDocument/documentSymbol", main, 0, 0)
+        return r[0] == "resp" and any(s["name"].lower() == "p" for s in (r[1] or []))
+
+    with NoTracing():
+        try:
+            res, hung = ws.guarded(run, 60)
+        except Exception as e:
+            _FAIL.append(("exception", type(e).__name__, str(e)[:200]))
+            return False
+    tock("growth")
+    return bool(res) and not hung
